@@ -168,6 +168,27 @@ def run(ctx: Ctx):
     C20.warmup_rules(ctx)
     for o in ctx.obligations[n0:]:
         o.rule = "C16.d"
+    # ---------------- A2C = REINFORCE whose baseline is the critic; both parameter sets are optimised
+    a2c = ctx.repo.get_class("rl4co/models/rl/a2c/a2c.py", "A2C")
+    ini = a2c.methods["__init__"]
+    ctx.fn(ini)
+    sup = [n for n in ast.walk(ini.node) if isinstance(n, ast.Call) and isinstance(n.func, ast.Attribute) and n.func.attr == "__init__" and isinstance(n.func.value, ast.Call)
+           and getattr(n.func.value.func, "id", "") == "super"]
+    ok_b = False
+    if len(sup) == 1:
+        bl = [k.value for k in sup[0].keywords if k.arg == "baseline"]
+        ok_b = len(bl) == 1 and isinstance(bl[0], ast.Call) and getattr(bl[0].func, "id", "") == "CriticBaseline" and len(bl[0].args) == 1 and isinstance(bl[0].args[0], ast.Name) \
+            and bl[0].args[0].id in ini.params()
+    bases_ok = any(getattr(b, "id", "") == "REINFORCE" for b in a2c.node.bases)
+    ctx.ob("C16.b", "A2C.__init__:critic-baseline", ok_b and bases_ok, ini.loc, "A2C is REINFORCE with baseline=CriticBaseline(critic): its loss is calculate_loss with the critic's value and mse loss",
+           construct="A2C.__init__:baseline")
+    co = a2c.methods["configure_optimizers"]
+    ctx.fn(co)
+    groups = [n for n in ast.walk(co.node) if isinstance(n, ast.Dict)]
+    srcs = {ast.unparse(v.func.value) for d_ in groups for k, v in zip(d_.keys, d_.values) if isinstance(k, ast.Constant) and k.value == "params" and isinstance(v, ast.Call)
+            and isinstance(v.func, ast.Attribute) and v.func.attr == "parameters"}
+    ctx.ob("C16.b", "A2C.configure_optimizers:both-parameter-sets", srcs == {"self.policy", "self.baseline"}, co.loc,
+           f"optimised parameter groups: {sorted(srcs)} (policy: surrogate term, baseline/critic: bl_loss term)", construct="A2C.configure_optimizers:groups")
     # ---------------- REINFORCE.calculate_loss
     rf = ctx.repo.get_class(RF, "REINFORCE")
     fi = rf.methods["calculate_loss"]
